@@ -24,7 +24,11 @@ RULE = ("random programs P ::= skip | raise | use sym | seq | scope units P | at
         "fields, custom or built-in conversion classes) and with probability ~0.5 a fault at a random registration "
         "index (existing symbol, symbol of an enclosing scope, clash with a prefixed symbol in either direction, "
         "invalid prefix, missing magnitude/dimensions, non-mapping definition, Quantity whose evaluation raises); "
-        "DIP texts with $unit definitions that parse and that fail, optionally inside an outer scope; "
+        "DIP texts with $unit definitions that parse and that fail, optionally inside an outer scope, and on every run "
+        ">=3 texts for each of 22 positions in which a DIP call site consumes a unit (expression operands incl. references "
+        "and function arguments, the unit of the node holding a numerical expression, option lines and !options arrays, "
+        "!condition and @case literals, modification and definition units, chained $unit) with the value oracle "
+        "[name] = value x magnitude of its definition (accept and reject variants); "
         "non-trivial = at least one nested scope or one injected fault (programs), at least one $unit (DIP); "
         "distinct = canonical JSON of the program / text")
 ASSUMPTIONS = [
@@ -38,7 +42,9 @@ ASSUMPTIONS = [
     "`UNIT_TYPES.insert` / `new_types.append` or `UNIT_STANDARD.append` / `new_units.append` are outside the model",
     "bodies do not delete or re-register units behind the environment's back; every environment is closed once "
     "(with-statement or a single close())",
-    "DIP texts are judged by the table snapshots only (plus value checks for the plain `$unit` / assignment family); "
+    "DIP texts are judged by the table snapshots and, for the assignment and position families, by the value oracle "
+    "(a custom unit means value x magnitude of its definition; magnitudes are powers of two times 1 or 1000 m and values "
+    "small integers, so expected values are exact and comparisons are far from the tolerance); "
     "the DIP call sites are tied to the model by recording their UnitEnvironment open/close sequence",
 ]
 EXPLANATION = ("theorems: for every program (any nesting, any fault placement, any body exceptions) the model's "
@@ -809,13 +815,14 @@ def gen_dip(rng):
     Every DIP call site that opens a unit scope is exercised with a body that completes and one that raises."""
     names = rng.sample(["x", "yy", "len", "uA", "q_1", "Zz"], rng.randint(1, 3))
     lines, symbols, expect = [], [], {}
-    vals = {}
+    vals, defs = {}, {}
     for n in names:
         v = rng.choice([2, 0.5, 3, 10])
         u, f = rng.choice(DIP_DEF_UNITS)
         lines.append("$unit %s = %s %s" % (n, v, u))
         symbols.append("[%s]" % n)
         vals[n] = float(v) * f
+        defs[n] = (float(v), u)
     ok = True
     for i, n in enumerate(names):
         k = rng.choice([1, 2, 4])
@@ -888,12 +895,159 @@ def gen_dip(rng):
         lines.append("i int = 3 [%s]" % n0)
         ok = None
     case = {"text": "\n".join(lines) + "\n", "symbols": symbols, "expect_ok": ok, "expect": expect if ok else {}, "mode": mode}
+    if ok:
+        # control: `K [name]` written with the standard unit of the definition instead
+        ctext = case["text"]
+        for n, (v, u) in defs.items():
+            ctext = re.sub(r"(\d+) \[%s\]" % re.escape(n), lambda m: "%s %s" % (_num(int(m.group(1)) * v), u), ctext)
+        case["control"] = {"text": ctext, "expect_ok": True, "expect": dict(case["expect"])}
     if rng.random() < 0.3:
         case["outer"] = [["qq", {"dict": {"magnitude": "5", "dimensions": json.dumps(DIMS[0]),
                                           "definition": {"ty": "T1"}}}]]
         if rng.random() < 0.5 and ok:
             case["text"] += "o float = 2 qq\n"
+            case["control"]["text"] += "o float = 2 qq\n"
     return case
+
+
+def _num(x):
+    """A number as DIP text (integral floats without exponent/fraction noise)."""
+    x = float(x)
+    return str(int(x)) if x == int(x) and abs(x) < 1e15 else repr(x)
+
+
+POSITION_MODES = ["expr-operand", "expr-operand-literal", "expr-operand-fn", "expr-operand-two", "expr-result-float",
+                  "expr-result-std-operands", "expr-result-int", "expr-result-other-custom", "option-lines",
+                  "option-lines-reject", "options-short", "options-short-reject", "options-custom-node",
+                  "cond-true", "cond-false", "cond-custom-node", "case-true", "case-false",
+                  "mod-to-custom", "mod-from-custom", "mod-int", "def-chain"]
+
+
+def gen_dip_positions(rng, mode=None):
+    """The custom unit in every position in which a DIP call site consumes a unit, with the value oracle
+    `[name]` = value x magnitude of its definition:
+      operands of a numerical expression (references to nodes in custom units, literals, function arguments),
+      the unit of the node that holds a numerical expression (the requested unit of NumericalSolver.solve),
+      option lines and `!options` arrays, literals of `!condition` and `@case` expressions,
+      the unit of a modification and of the modified definition, another `$unit` definition.
+    All magnitudes are powers of two times 1 or 1000 m and all values small integers, so every expected
+    value / comparison is exact in binary floating point and far away from the comparison tolerance.
+    Each case carries a CONTROL: the same text with the standard unit of the definition in place of the custom
+    unit (magnitude f instead of v*f). A deviation that the control shows too is not specific to custom units
+    (it belongs to the DIP properties C14-C18) and is not reported here."""
+    mode = mode or rng.choice(POSITION_MODES)
+    n0, n1 = rng.sample(["x", "yy", "len", "uA", "q_1", "Zz"], 2)
+    v0, (u0, f0) = rng.choice([2, 4, 0.5]), rng.choice([("m", 1.0), ("km", 1000.0)])
+    v1, (u1, f1) = rng.choice([2, 8, 0.25]), rng.choice([("m", 1.0), ("km", 1000.0)])
+    defs = ["$unit %s = %s %s" % (n0, _num(v0), u0), "$unit %s = %s %s" % (n1, _num(v1), u1)]
+    symbols = ["[%s]" % n0, "[%s]" % n1]
+    P, K, J = rng.choice([1, 3, 5]), rng.choice([1, 2, 6]), rng.choice([2, 3, 7])
+    if mode == "mod-int" and K * v0 * f0 != int(K * v0 * f0):
+        mode = "mod-to-custom"            # an int node takes only integer literals (casting is C14's subject)
+    filler = rng.random() < 0.5
+
+    def build(c0, m0, c1, m1):
+        lines = list(defs)
+        expect, plain, reject = {}, {}, False
+        if mode == "expr-operand":
+            lines += ["p float = %d %s" % (P, c0), "e float = ('{?p} + %d %s') m" % (K, c0)]
+            expect["e"] = [(P + K) * m0, "m"]
+        elif mode == "expr-operand-literal":
+            lines += ["e float = ('%d %s * %d') km" % (K, c0, J)]
+            expect["e"] = [K * m0 * J / 1000.0, "km"]
+        elif mode == "expr-operand-fn":
+            lines += ["e float = ('exp(0) * %d %s - %d %s') m" % (K + 8, c0, K, c0)]
+            expect["e"] = [8 * m0, "m"]
+        elif mode == "expr-operand-two":
+            lines += ["e float = ('%d %s + %d %s') m" % (K, c0, J, c1)]
+            expect["e"] = [K * m0 + J * m1, "m"]
+        elif mode == "expr-result-float":
+            # requested unit of the expression node is the custom unit; operands mix custom and standard units
+            lines += ["p float = %d %s" % (P, c0), "e float = ('{?p} + %s m') %s" % (_num(K * m0), c0)]
+            expect["e"] = [P + K, c0]
+        elif mode == "expr-result-std-operands":
+            lines += ["e float = ('%s m * %d') %s" % (_num(K * m0), J, c0)]
+            expect["e"] = [K * J, c0]
+        elif mode == "expr-result-int":
+            lines += ["e int = ('2 * %s m') %s" % (_num(K * m0), c0)]
+            expect["e"] = [2 * K, c0]
+        elif mode == "expr-result-other-custom":
+            lines += ["e float = ('%d %s') %s" % (K, c0, c1)]
+            expect["e"] = [K * m0 / m1, c1]
+        elif mode in ("option-lines", "option-lines-reject"):
+            val = K * m0 if mode == "option-lines" else K * m0 * 1.5
+            lines += ["o float = %s m" % _num(val), "  = %d %s" % (K + 9, c0), "  = %d %s" % (K, c0)]
+            reject = mode.endswith("reject")
+            expect["o"] = [val, "m"]
+        elif mode in ("options-short", "options-short-reject"):
+            val = K * m0 if mode == "options-short" else K * m0 * 1.5
+            lines += ["o float = %s m" % _num(val), "  !options [%d,%d,%d] %s" % (K + 9, K, K + 20, c0)]
+            reject = mode.endswith("reject")
+            expect["o"] = [val, "m"]
+        elif mode == "options-custom-node":
+            lines += ["o float = %d %s" % (K, c0), "  !options [%s,%s] m" % (_num(K * m0 * 4), _num(K * m0))]
+            expect["o"] = [K, c0]
+        elif mode in ("cond-true", "cond-false"):
+            val = K * m0 * (4 if mode == "cond-true" else 0.25)
+            lines += ["d float = %s m" % _num(val), "  !condition ('{?} > %d %s')" % (K, c0)]
+            reject = mode == "cond-false"
+            expect["d"] = [val, "m"]
+        elif mode == "cond-custom-node":
+            lines += ["d float = %d %s" % (4 * K, c0), "  !condition ('{?} > %s m && {?} < %d %s')" % (_num(K * m0), 8 * K, c0)]
+            expect["d"] = [4 * K, c0]
+        elif mode in ("case-true", "case-false"):
+            val = K * m0 * (4 if mode == "case-true" else 0.25)
+            lines += ["d float = %s m" % _num(val), "@case ('{?d} > %d %s')" % (K, c0), "  z int = 1", "@else", "  z int = 2", "@end"]
+            plain["z"] = "1" if mode == "case-true" else "2"
+        elif mode == "mod-to-custom":
+            lines += ["q float = 1 %s" % c0, "q = %s m" % _num(K * m0)]
+            expect["q"] = [K, c0]
+        elif mode == "mod-from-custom":
+            lines += ["q float = 1 km", "q = %d %s" % (K, c0)]
+            expect["q"] = [K * m0 / 1000.0, "km"]
+        elif mode == "mod-int":
+            lines += ["q int = 1 %s" % c0, "q = %s m" % _num(K * m0)]
+            expect["q"] = [K, c0]
+        elif mode == "def-chain":
+            lines += ["$unit ch = %d %s" % (J, c0), "q float = 1 m", "q = %d [ch]" % K, "r float = %d [ch]" % K, "r = %d %s" % (J, c0)]
+            expect["q"] = [K * J * m0, "m"]
+            expect["r"] = [1, "[ch]"]
+        if filler:                         # something unrelated in between, so positions vary
+            lines.insert(2, "w float = 7 s")
+        return {"text": "\n".join(lines) + "\n", "expect_ok": not reject, "expect_reject": reject,
+                "expect": {} if reject else expect, "expect_plain": {} if reject else plain}
+
+    case = build("[%s]" % n0, v0 * f0, "[%s]" % n1, v1 * f1)
+    case["control"] = build(u0, f0, u1, f1)
+    case["symbols"] = symbols + (["[ch]"] if mode == "def-chain" else [])
+    case["mode"] = "pos:" + mode
+    if rng.random() < 0.2:
+        case["outer"] = [["qq", {"dict": {"magnitude": "5", "dimensions": json.dumps(DIMS[0]),
+                                          "definition": {"ty": "T1"}}}]]
+    return case
+
+
+def usable_deviation(c, r, rel_close):
+    """The value oracle on one DIP result: None, or the description of the deviation."""
+    if c.get("expect_reject"):
+        if r["ok"]:
+            return ("a DIP text whose node violates an option/condition stated in a custom unit "
+                    "(custom unit = value x magnitude of its definition) was accepted")
+        return None
+    if c.get("expect_ok") is not True:
+        return None
+    if not r["ok"]:
+        return ("a DIP text that only defines custom units and uses them inside the parse failed "
+                "(custom unit not usable inside its scope)")
+    for k, v in c.get("expect", {}).items():
+        v = v if isinstance(v, list) else [v, "m"]
+        got = r["data"].get(k)
+        if not (isinstance(got, list) and got[1] == v[1] and rel_close(got[0], v[0])):
+            return "node %s should be %s %s (custom unit = value x magnitude of its definition), got %s" % (k, v[0], v[1], got)
+    for k, v in c.get("expect_plain", {}).items():
+        if r["data"].get(k) != v:
+            return "node %s should be %s, got %s" % (k, v, r["data"].get(k))
+    return None
 
 
 def trace_to_prog(trace):
@@ -940,8 +1094,13 @@ def dip_stream(ctx, worker, g0, count):
     from harness.util import rel_close, shrink_list
     clean = clean_sum(g0)
     cases = list(load_corpus()["dip"])
-    for _ in range(count):
-        cases.append(gen_dip(ctx.rng))
+    # every position in which a call site consumes a unit is covered on every run, whatever the seed
+    per_mode = 3 if count < 1000 else 12
+    for m in POSITION_MODES:
+        for _ in range(per_mode):
+            cases.append(gen_dip_positions(ctx.rng, m))
+    for _ in range(max(0, count - per_mode * len(POSITION_MODES))):
+        cases.append(gen_dip_positions(ctx.rng) if ctx.rng.random() < 0.3 else gen_dip(ctx.rng))
     seen_sig = set()
     traced = []
     for c in cases:
@@ -964,15 +1123,22 @@ def dip_stream(ctx, worker, g0, count):
                          ("returned" if r["ok"] else "raised", diff_text(clean, r["final"]))))
         if r["outside_known"]:
             sigs.append(("outside:dip", "DIP units %s are known to Quantity after the parse" % r["outside_known"]))
-        if c.get("expect_ok") is True:
-            if not r["ok"]:
-                sigs.append(("usable:dip", "a DIP text that only defines and uses custom units failed to parse"))
-            else:
-                for k, v in c["expect"].items():
-                    got = r["data"].get(k)
-                    if not (isinstance(got, list) and got[1] == "m" and rel_close(got[0], v)):
-                        sigs.append(("usable:dip", "node %s should be %s m (custom unit used in an assignment), got %s" % (k, v, got)))
-                        break
+        pos = c.get("mode", "corpus")
+        usig = "usable:dip:" + (pos[4:] if pos.startswith("pos:") else "assignment")
+        dev = usable_deviation(c, r, rel_close)
+        if dev is not None and c.get("control"):
+            # the same text with the standard unit in place of the custom unit: a deviation it shares is not
+            # about custom units (C14-C18 judge it)
+            rc = worker.ask({"kind": "dip", "text": c["control"]["text"], "symbols": [], "outer": c.get("outer")})
+            if "error" in rc or usable_deviation(c["control"], rc, rel_close) is not None:
+                ctx.count("dip.control_also_deviates")
+                if not any(n.startswith("C09 control") for n in ctx.notes):
+                    ctx.notes.append("C09 control: a DIP text deviates with the standard unit in place of the custom unit "
+                                     "too (not judged here): %r" % c["control"]["text"][:200])
+                dev = None
+        if dev is not None:
+            sigs.append((usig, dev))
+            replay["control_text"] = (c.get("control") or {}).get("text")
         for sig, what in sigs[:1]:
             if sig in seen_sig:
                 continue
